@@ -5,7 +5,7 @@ From Coq Require Import NArith List Bool Arith.
 From Verif.model Require Import LedgerSpec Tracker.
 From Verif.proofs Require Import TrackerProofs.
 Import ListNotations.
-Open Scope N_scope.
+Local Open Scope N_scope.
 
 Definition ex_cfg := mkCfg 1 true 8 8 8.
 Definition ex_gen : list (addr * acct) := [(1, mkAcct 100 0 0); (2, mkAcct 50 0 0)].
